@@ -191,9 +191,10 @@ def main(ctx):
 
     # 2. scenario generation: edge cover of the lifecycle graph + random walks
     ocfg = "MC_ContractOps_quick.cfg" if quick else "MC_ContractOps_thorough.cfg"
-    ro = vlib.tlc(ctx, "ContractOps.tla", ocfg, workers=4, timeout=3000)
+    ro = vlib.tlc(ctx, "ContractOps.tla", ocfg, workers=1, timeout=3000)     # (one worker: the same paths for the same seed)
     if not ro.ok:
         raise vlib.CheckError("scenario generator failed: %s" % (ro.error or "")[:1500])
+    ro.exports.sort(key=lambda e: json.dumps(e, sort_keys=True))
     budget = 1100 if quick else 14000
     cases = sample_cases(ro.exports, rnd, budget)
     # scenarios behind the > 30000 blocks of waiting (thorough only): a bounded number, cheapest deviations first
@@ -205,6 +206,7 @@ def main(ctx):
                   extra=["-simulate", "num=%d" % (nwalk * 2), "-depth", "24", "-seed", str(ctx.seed)], simulate=True)
     if rs.error:
         raise vlib.CheckError("simulation of the scenario generator failed: " + (rs.error or "")[:1500])
+    rs.exports.sort(key=lambda e: json.dumps(e, sort_keys=True))
     walks = pick_walks(rs.exports, nwalk)
     ctx.log("scenarios: %d transitions of the lifecycle graph (%d states) exported, %d selected; %d random walks"
             % (len(ro.exports), ro.distinct, len(cases), len(walks)))
